@@ -2,7 +2,7 @@ from pyvc import frames
 
 INFO = {
     "level": "proof",
-    "level_text": "Every station is built with a dispensed-energy ledger entry (at zero) for every energy type (Station.build, proved from its body: reduce invariant + dict comprehension) and Station.append_chargers (later rows of the stations file) leaves ledger and balance untouched -- tick_energy_dispensed books only on keys the ledger already has, so this is what makes `energy gained = energy dispensed` hold for plugs added by later rows. The energy a vehicle books as gained equals the change of its energy level for both mechatronics (BEV.add_energy / ICE.add_energy: `energy_accounted`, including the step in which the battery or tank tops out), which is the amount charge() books as dispensed and bills. Pooling: servicing_ops.complete_trip_phase is proved to credit the fare of the boarded request to the vehicle on a committed pickup (defect F17 found by this obligation and repaired). Contract of charge(): for all states, a committed charging step changes the vehicle by exactly what add_energy returns minus a payment of (energy added) x (this station's tariff for this plug), and the station by exactly that payment and that energy on the charger's energy type; nothing else changes in either (postcondition over the whole values). pick_up_trip credits exactly request.value to the vehicle that picks up. Frame: a syntactic rule, re-derived from the source each run, shows that no other function of the package writes balance / energy_gained / energy_dispensed or calls one of their writers. The fleet-wide sums then move by equal amounts on both sides (lemma L1).",
+    "level_text": "ServicingPoolingTrip.enter credits the fare of the first pooled request exactly once (verified from its body). Every station is built with a dispensed-energy ledger entry (at zero) for every energy type (Station.build, proved from its body: reduce invariant + dict comprehension) and Station.append_chargers (later rows of the stations file) leaves ledger and balance untouched -- tick_energy_dispensed books only on keys the ledger already has, so this is what makes `energy gained = energy dispensed` hold for plugs added by later rows. The energy a vehicle books as gained equals the change of its energy level for both mechatronics (BEV.add_energy / ICE.add_energy: `energy_accounted`, including the step in which the battery or tank tops out), which is the amount charge() books as dispensed and bills. Pooling: servicing_ops.complete_trip_phase is proved to credit the fare of the boarded request to the vehicle on a committed pickup (defect F17 found by this obligation and repaired). Contract of charge(): for all states, a committed charging step changes the vehicle by exactly what add_energy returns minus a payment of (energy added) x (this station's tariff for this plug), and the station by exactly that payment and that energy on the charger's energy type; nothing else changes in either (postcondition over the whole values). pick_up_trip credits exactly request.value to the vehicle that picks up. Frame: a syntactic rule, re-derived from the source each run, shows that no other function of the package writes balance / energy_gained / energy_dispensed or calls one of their writers. The fleet-wide sums then move by equal amounts on both sides (lemma L1).",
     "level_note": "floats as reals (both sides are computed from the same operands, so per step they are bit-equal; sums over the fleet are order dependent in floating point); add_energy is any MechatronicsInterface implementation (its frame is the interface contract proved for BEV and ICE); the sums over the fleet are not materialised: the per-step equality of the two deltas is what is proved.",
     "trusted_base": ["lemma L1 (sum point-update) for the step from per-entity deltas to fleet sums"],
     "assumptions": ["initial balances / energy ledgers are zero at load time (initialisation code is outside the kernel)"],
